@@ -401,6 +401,193 @@ def instance_text_with_line(v, name, node, target, line):
     return '\r'.join(out)
 
 
+def check_local_segment(core, parser, v, name, node, rng, rec):
+    """the profile restates the standard structure and describes one local segment (ZPD: ZPD-1 NM once and required, ZPD-2 of a
+    composite datatype at most twice) as the last child of the message: parsing, add_segment / add_field, traversal and
+    validate() take the segment from the profile - also when it arrives while a group is still open"""
+    from hl7apy.exceptions import HL7apyException
+    row = '%s|%s' % (v, name)
+    std = thaw(tables.lib(v).MESSAGES[name])
+    msh = [c for c in std[1] if c[0] == 'MSH'][0]
+    cref = [f[1] for f in msh[1][1] if f[1][0] == 'sequence'][0]
+    cdt = cref[2]
+    zpd = ['sequence', [['ZPD_1', ['leaf', None, 'NM', 'VISIT_COUNT', None, 4], [1, 1], 'FIE'],
+                        ['ZPD_2', ['sequence', cref[1], cdt, 'LOCAL_IDENTIFIERS', None, 60], [0, 2], 'FIE']]]
+    profs = {}
+    for card in ((0, 1), (1, 1)):
+        t = thaw(tables.lib(v).MESSAGES[name])
+        t[1].append(['ZPD', zpd, list(card), 'SEG'])
+        profs[card] = {name: freeze(t)}
+    zline = 'ZPD|12|' + structref.required_text(v, 'sequence', cdt, tables.components(v, cdt), 1)
+    lines_all = ['%s' % (structref.conforming_msh(v, name) if l.seg == 'MSH' else
+                         structref.conforming_segment_line(v, l.seg, 'required'))
+                 for l in structref.emit(node, rng, 'all', 1)]
+    texts = {'required-only': instance_text(v, name, node)}
+    if structref.unambiguous(v, node, structref.emit(node, rng, 'all', 1)):
+        texts['every-child'] = '\r'.join(lines_all)       # (the last group of the structure is still open when ZPD arrives)
+    for how, base in sorted(texts.items()):
+        case = {'version': v, 'structure': name, 'edit': 'local-segment', 'instance': how, 'text': base + '\r' + zline}
+        rec.evaluation((v, name, 'local-segment', how))
+        try:
+            for level in (1, 2):
+                try:
+                    b0 = parser.parse_message(base, message_profile=profs[(0, 1)], validation_level=level)
+                except HL7apyException:
+                    rec.count('instances_not_judgeable_without_profile')
+                    continue
+                if report(b0)[0]:
+                    rec.count('instances_not_judgeable_without_profile')
+                    continue
+                p = parser.parse_message(base + '\r' + zline, message_profile=profs[(0, 1)], validation_level=level)
+                rec.count('local_segment_parses')
+                top = [c.name for c in p.children.list]
+                if top[-1:] != ['ZPD']:
+                    rec.violation('local-segment-of-the-profile-not-placed-where-the-profile-puts-it', dict(case, level=level),
+                                  {'top_level_children': top[-4:]}, row=row)
+                    continue
+                z = p.children.list[-1]
+                got = [(f.name, f.datatype) for f in z.children.list]
+                if got != [('ZPD_1', 'NM'), ('ZPD_2', cdt)]:
+                    rec.violation('local-segment-fields-not-taken-from-the-profile:parse', dict(case, level=level),
+                                  {'fields': got, 'expected': [('ZPD_1', 'NM'), ('ZPD_2', cdt)]}, row=row)
+                    continue
+                if report(p)[0]:
+                    rec.violation('profile-conforming-instance-rejected:local-segment', dict(case, level=level),
+                                  {'errors': report(p)[0][:3]}, row=row)
+                    continue
+                if p.to_er7() != base + '\r' + zline:
+                    rec.violation('profile-parse-changes-encoding', dict(case, level=level), {'out': p.to_er7()[-60:]}, row=row)
+                    continue
+                # required by the profile and absent: validate() says so
+                q = parser.parse_message(base, message_profile=profs[(1, 1)], validation_level=2)
+                if not any('ZPD' in e for e in report(q)[0]):
+                    rec.violation('profile-constraint-not-enforced-by-validate:local-segment-required', dict(case, level=level),
+                                  {'profile_errors': report(q)[0][:3]}, row=row)
+                    continue
+                rec.seen('edit_kinds', 'local-segment')
+        except Exception as e:
+            rec.violation('edit-raised:local-segment:%s' % type(e).__name__, case, {'exc': repr(e)[:200]}, row=row)
+    # construction: add_segment / add_field, traversal, assignment
+    case = {'version': v, 'structure': name, 'edit': 'local-segment', 'instance': 'built'}
+    for level in (1, 2):
+        for how in ('add', 'traversal'):
+            rec.evaluation((v, name, 'local-segment', how, level))
+            try:
+                m = core.Message(name, reference=profs[(0, 1)], version=v, validation_level=level)
+                if how == 'add':
+                    z = m.add_segment('ZPD')
+                    f1 = z.add_field('ZPD_1')
+                    f2 = z.add_field('ZPD_2')
+                    got = [(f1.name, f1.datatype, f1.long_name), (f2.name, f2.datatype, f2.long_name)]
+                else:
+                    m.zpd.zpd_2 = structref.required_text(v, 'sequence', cdt, tables.components(v, cdt), 1)
+                    m.zpd.visit_count = '12'
+                    z = m.zpd[0]
+                    got = [(f.name, f.datatype, f.long_name) for f in sorted(z.children.list, key=lambda f: f.name)]
+                rec.count('local_segment_constructions')
+                want = [('ZPD_1', 'NM', 'VISIT_COUNT'), ('ZPD_2', cdt, 'LOCAL_IDENTIFIERS')]
+                if got != want:
+                    rec.violation('local-segment-fields-not-taken-from-the-profile:%s' % how, dict(case, level=level, how=how),
+                                  {'fields': got, 'expected': want}, row=row)
+                    continue
+                if level == 1:
+                    # STRICT admission follows the profile: a text is no NM, a third ZPD-2 is one too many
+                    refused = []
+                    for what, fn in (('text-in-NM', lambda: setattr(z, 'zpd_1', 'twelve')),
+                                     ('third-ZPD_2', lambda: [z.add_field('ZPD_2') for _ in range(2)])):
+                        try:
+                            fn()
+                        except (HL7apyException, ValueError):
+                            refused.append(what)
+                    if refused != ['text-in-NM', 'third-ZPD_2']:
+                        rec.violation('local-segment-constraints-not-used-by-STRICT', dict(case, level=level, how=how),
+                                      {'refused': refused}, row=row)
+            except Exception as e:
+                rec.violation('edit-raised:local-segment:%s' % type(e).__name__, dict(case, level=level, how=how),
+                              {'exc': repr(e)[:200]}, row=row)
+
+
+def check_inside_component(core, parser, v, name, node, rng, rec):
+    """the profile forbids (0, 0) the second sub-component of a composite component of one field: under STRICT it is refused
+    whichever way the component is reached - text assigned to the component, to the field, traversal, add_subcomponent"""
+    from hl7apy.exceptions import HL7apyException
+    row = '%s|%s' % (v, name)
+    t = thaw(tables.lib(v).MESSAGES[name])
+    tnames = set(c.name for c in top_targets(v, node))
+    found = None
+    for c in t[1]:
+        if c[0] not in tnames or c[3] != 'SEG':
+            continue
+        for f in c[1][1]:
+            if f[1][0] != 'sequence' or f[2][1] == 0:
+                continue
+            for k, comp in enumerate(f[1][1]):
+                subs = comp[1][1] if comp[1][0] == 'sequence' else []
+                if comp[2][1] != 0 and len(subs) >= 2 and all(x[1][0] == 'leaf' and x[2][1] != 0 for x in subs[:2]):
+                    found = (c, f, k, comp, subs)
+                    break
+            if found:
+                break
+        if found:
+            break
+    if not found:
+        rec.count('structures_without_composite_component')
+        return
+    c, f, k, comp, subs = found
+    w1, w2 = gen.witness(v, subs[0][1][2]), gen.witness(v, subs[1][1][2])
+    subs[1][2] = [0, 0]
+    prof = {name: freeze(t)}
+    sname, fname, cname, s2name = c[0], f[0], comp[0], subs[1][0]
+    text = w1 + '&' + w2
+
+    def field_of(reference):
+        m = core.Message(name, reference=reference, version=v, validation_level=1)
+        seg = m.add_segment(sname)
+        return seg, seg.add_field(fname)
+
+    ways = {
+        'text-assigned-to-the-component': lambda r: setattr(field_of(r)[1], cname.lower(), text),
+        'text-assigned-to-the-field': lambda r: setattr(field_of(r)[1], 'value', '^' * k + text),
+        'traversal': lambda r: setattr(getattr(field_of(r)[1], cname.lower()), s2name.lower(), w2),
+        'add_subcomponent': lambda r: field_of(r)[1].add_component(cname).add_subcomponent(s2name),
+        'long-name-of-the-component': lambda r: setattr(field_of(r)[1], comp[1][3].lower(), text) if comp[1][3] else None,
+        'component-copied-from-a-standard-field': lambda r: setattr(
+            field_of(r)[1], cname.lower(), getattr(_valued(core, v, fname, cname, text), cname.lower())),
+    }
+    case0 = {'version': v, 'structure': name, 'edit': 'forbid-inside-component', 'segment': sname, 'field': fname,
+             'component': cname, 'forbidden': s2name}
+    for how, fn in sorted(ways.items()):
+        case = dict(case0, how=how)
+        rec.evaluation((v, name, 'forbid-inside-component', how))
+        if how == 'long-name-of-the-component' and not comp[1][3]:
+            continue
+        try:
+            fn(None)            # the standard structure accepts it: the edit is observable
+        except Exception:
+            rec.count('edits_not_observable_inside_component')
+            continue
+        try:
+            fn(prof)
+            rec.violation('profile-constraint-inside-a-component-not-used-by-STRICT', case, {'accepted': text}, row=row)
+        except HL7apyException:
+            rec.count('inside_component_refusals')
+            rec.seen('edit_kinds', 'forbid-inside-component')
+        except Exception as e:
+            rec.violation('edit-raised:forbid-inside-component:%s' % type(e).__name__, case, {'exc': repr(e)[:200]}, row=row)
+    # what the profile allows is accepted
+    try:
+        setattr(field_of(prof)[1], cname.lower(), w1)
+        rec.count('inside_component_allowed_values_accepted')
+    except Exception as e:
+        rec.violation('profile-conforming-value-refused:forbid-inside-component', case0, {'exc': repr(e)[:200]}, row=row)
+
+
+def _valued(core, v, fname, cname, text):
+    f = core.Field(fname, version=v, validation_level=2)
+    setattr(f, cname.lower(), text)
+    return f
+
+
 def run_structures(spec, rec):
     from hl7apy import core, parser
     v = spec['version']
@@ -417,6 +604,10 @@ def run_structures(spec, rec):
         n += 1
         rec.count('structures_used')
         check_structure(core, parser, v, name, node, rng, rec)
+        if n % 3 == 1:
+            check_local_segment(core, parser, v, name, node, rng, rec)
+        if n % 3 == 2:
+            check_inside_component(core, parser, v, name, node, rng, rec)
         if n == 1:
             rec.sample({'version': v, 'structure': name, 'edits': list(EDITS)})
     rec.seen('versions', v)
@@ -500,7 +691,8 @@ def floors(tier, m):
     c = m['counters']
     if c.get('structures_used', 0) < 200:
         out.append('fewer than 200 structures')
-    if set(m['seen'].get('edit_kinds', ())) != {'tighten', 'require', 'forbid', 'datatype', 'limit-two-in-group', 'require-two', 'require-second-occurrence'}:
+    if set(m['seen'].get('edit_kinds', ())) != {'tighten', 'require', 'forbid', 'datatype', 'limit-two-in-group', 'require-two', 'require-second-occurrence',
+                                                         'local-segment', 'forbid-inside-component'}:
         out.append('edit kinds judged: %s' % sorted(m['seen'].get('edit_kinds', ())))
     if c.get('identity_comparisons', 0) < 200 or c.get('verdict_comparisons', 0) < 200 or \
             c.get('datatype_observations', 0) < 300:
